@@ -6,7 +6,7 @@ from oracles import o_main, o_float
 
 
 def kw_for(ctx, hermitian=True, **over):
-    kw = dict(hermitian=hermitian, N=ctx.n(3, 4), max_blocks=ctx.n(3, 4), max_size=3, max_params=ctx.n(2, 3))
+    kw = dict(hermitian=hermitian, N=ctx.n(3, 4), max_blocks=ctx.n(3, 4), max_size=3, max_params=2)
     kw.update(over)
     return kw
 
@@ -24,9 +24,11 @@ def run(ctx, vfiles, props, hermitian=True, classify=None, extra=None, ncases=No
     ctx.tie("k_semeq", k_semeq.tie_semeq, hermitian=hermitian)
     if extra:
         extra(ctx)
-    n = ncases or ctx.n(36, 700)
+    n = ncases or ctx.n(36, 480)
     kw = kw_for(ctx, hermitian)
     ctx.oracle("o_main[%s]" % ",".join(props), o_main.sweep, n, props, kw)
+    if not ctx.quick:
+        ctx.oracle("o_main_3params", o_main.sweep, 160, props, kw_for(ctx, hermitian, N=3, max_blocks=3, max_params=3))
     fprops = {"similarity": ["kept", "eliminated"], "unitary": ["UdU", "UUd", "adjoint", "Ht_herm"], "gauge": ["gauge"]}
     want = [x for p_ in props for x in fprops.get(p_, [])]
     if want:
